@@ -225,7 +225,11 @@ var chinese = ev.Register(&ev.P[dayCase]{
 		l := calendar.NewSolarFromYmd(y, mo, d).GetLunar()
 		ly, lm, ld := l.GetYear(), l.GetMonth(), l.GetDay()
 		key := fmt.Sprintf("%d/%d/%d", ly, lm, ld)
+		civil := fmt.Sprintf("civil %04d-%02d-%02d", y, mo, d)
 		s := l.String()
+		if again := l.String(); again != s {
+			return fmt.Errorf("lunar %s: String() gives %q then %q", key, s, again)
+		}
 		if s != l.GetYearInChinese()+"年"+l.GetMonthInChinese()+"月"+l.GetDayInChinese() {
 			return fmt.Errorf("lunar %s: String()=%q is not year+年+month+月+day of the component getters", key, s)
 		}
@@ -236,7 +240,7 @@ var chinese = ev.Register(&ev.P[dayCase]{
 		if py != ly || pm != lm || pd != ld {
 			return fmt.Errorf("lunar %s prints %q which parses back to %d/%d/%d", key, s, py, pm, pd)
 		}
-		if err := unique("Lunar.String", s, key); err != nil {
+		if err := unique("Lunar.String", s, civil); err != nil {
 			return err
 		}
 		tao, foto := l.GetTao(), l.GetFoto()
@@ -258,13 +262,16 @@ var chinese = ev.Register(&ev.P[dayCase]{
 					return fmt.Errorf("%s: String()=%q differs from ToString()=%q", x.kind, a, x.text)
 				}
 			}
-			if err := unique(x.kind+".ToString", x.text, key); err != nil {
+			if err := unique(x.kind+".ToString", x.text, civil); err != nil {
 				return err
 			}
 		}
 		// lunar month / year objects
 		lmo := calendar.NewLunarMonthFromYm(ly, lm)
 		ms := lmo.String()
+		if again := lmo.String(); again != ms || lmo.GetMonth() != lm {
+			return fmt.Errorf("LunarMonth %d/%d: String() gives %q then %q (month number now %d)", ly, lm, ms, again, lmo.GetMonth())
+		}
 		i := strings.Index(ms, "年")
 		j := strings.Index(ms, "月(")
 		k := strings.Index(ms, ")天")
